@@ -291,7 +291,8 @@ MANIFEST_TEXT.update({
     "C06": _mt("granted_lifetime, reported_exact, allocate_success / refresh_success (expiry = now + granted; Refresh 0 deletes in the same step), alive_iff on every time advance, dead_is_silent.",
                "DESIGN.md §6 C06", "Lean 4 theorems over symbolic time + differential correspondence under virtual time"),
     "C07": _mt("entries_bounded invariant, create_permission_installs / channel_bind_installs (exact new expiries; ChannelBind refreshes the permission with the permission timeout), "
-               "change_monotone (nothing but time shortens an entry), expires_exactly, rebind_after_expiry.",
+               "change_monotone (nothing but time shortens an entry), expires_exactly, rebind_after_expiry; entry_lives (trace form, any history: a permission / binding with expiry >= e is still held "
+               "with expiry >= e after ANY sequence of requests of any client, relay events and time steps while the clock is below e and the allocation has not ended), held_perm_relays.",
                "DESIGN.md §6 C07", "Lean 4 invariants + exact-expiry theorems + differential correspondence around every horizon"),
     "C08": _mt("chan_bijection invariant (numbers distinct, peers distinct, range) over all reachable states, conflict_400, conflict_iff, rejected_changes_nothing, rebind_no_conflict, emitted_numbers_valid.",
                "DESIGN.md §6 C08", "Lean 4 invariant by induction + differential correspondence"),
